@@ -87,6 +87,19 @@ def apply(c, op):
             return ('ok', c.clear())
         if name == 'eq':
             return ('ok', c == dict(op[1]))
+        if name == 'ne':
+            return ('ok', c != dict(op[1]))
+        if name == 'repr':
+            import re
+            return ('ok', re.sub(r' at 0x[0-9a-f]+', '', repr(c)))
+        if name == 'update_bad':        # a bulk update whose argument turns out malformed after some items were stored
+            return ('ok', c.update([tuple(p) for p in op[1]] + ['x']))
+        if name == 'update_genraises':  # ... or whose source raises part-way
+            def gen():
+                for p in op[1]:
+                    yield tuple(p)
+                raise LoaderFailed('source of the update')
+            return ('ok', c.update(gen()))
         if name == 'len':
             return ('ok', len(c))
         if name == 'in':
@@ -261,10 +274,15 @@ def alphabet(cfg, reduced=False, quick=False):
            ('setdefault', 'c', 7), ('setdefault', 'a', 7), ('del', 'a'), ('pop', 'a'), ('popitem',),
            ('update', (('c', 3),)), ('update', (('a', 8), ('c', 4))), ('updatekw', (('c', 9),), (('a', 7),)), ('clear',), ('eq', tuple(sorted(full.items(), key=repr))), ('len',), ('in', 'a'),
            ('in', 'c'), ('copy',), ('getu',)]
+    # observers of the *inside* of a multi-item update: an operand equal to the contents between its two stores
+    mid = dict(full); mid['a'] = 8
+    ops += [('repr',), ('eq', tuple(sorted(mid.items(), key=repr))), ('ne', tuple(sorted(mid.items(), key=repr))),
+            ('update_bad', (('c', 3), ('d', 4))), ('update_genraises', (('c', 3), ('a', 6)))]
     if ms >= 2:
         ops += [('getitem', 'b'), ('set', 'b', 6), ('pop', 'b')]
     if quick:   # near-duplicates of other entries (same code path on another key) are left to the thorough tier
-        ops = [o for o in ops if o not in (('get', 'a'), ('set', 'b', 6), ('pop', 'b'), ('in', 'c'))]
+        ops = [o for o in ops if o not in (('get', 'a'), ('set', 'b', 6), ('pop', 'b'), ('in', 'c'))
+               and o[0] not in ('ne', 'update_genraises')]
     return ops
 
 
